@@ -185,13 +185,14 @@ PROPS["C12"] = {
                   "rules (arg-max for soft-max outputs, tolerance otherwise, one and several outputs); every case is replayed through an identity "
                   "output layer (prediction = input) and compared bit for bit, predict_batch()[i] must equal predict(x_i) and the last forward "
                   "activation, and generic networks are checked against the same aggregation composed from their own predict() and objective",
-    "level_note": "integer predictions/targets in -3..3, output lengths 1/2/4, tolerances 0.5 and 1.5, AE and MSE exact; other objectives and float "
+    "level_note": "integer predictions/targets in -3..3, output lengths 1/2/4, tolerances 0.5 .. 3.5, AE and MSE exact; tied predictions (either single-valued "
+                  "tie rule accepted) and one sample whose squared error overflows (mean loss +inf, the sample still counted); other objectives and float "
                   "data only through the composed oracle (1e-6)",
     "rule": "one case = one (size, output length, accuracy rule, tolerance, objective, seed) data set; all distinct; non-trivial = all",
     "mc": [{"module": "MC_C12",
             "consts": {"quick": {"Ns": "{1, 2, 63, 64, 65, 129}", "Lens": "{1, 2, 4}", "Seeds": "{1}"},
                        "thorough": {"Ns": "{1, 2, 3, 63, 64, 65, 127, 128, 129, 200, 257}", "Lens": "{1, 2, 4}", "Seeds": "{1, 2, 3}"}},
-            "workers": 8}],
+            "workers": 8, "require": {"validate_cases_with_tied_predictions": 8, "validate_overflowing_loss_cases": 20}}],
     "record": [{"group": "training", "trace_module": "Trace_Training"}],
     "assumptions": TRAIN_ASSUME,
 }
